@@ -23,7 +23,7 @@ SUITES["breaker"] = dict(
 SUITES["strategy"] = dict(
     test="TestStrategy", coq_module="Cases.StrategyCase", case_type="str_case", eval="eval_str_case",
     cols=["diff", "mon_rr", "mon_wrr_exact", "mon_wrr_bound", "mon_lc", "mon_affinity", "mon_valid", "mon_remap",
-          "cls_wrr_removed", "nt_c05", "nt_c06"],
+          "cls_wrr_removed", "nt_c05", "nt_c06", "mon_wrr_proved", "cls_wrr_flap"],
     batches={"quick": 4, "thorough": 16}, timeout={"quick": 300, "thorough": 3000},
 )
 
@@ -207,8 +207,8 @@ PROPS["C06"] = dict(
 
 PROPS["C05"] = dict(
     props_file="Props/C05.v",
-    suites=[dict(suite="strategy", corr=["diff"], monitors=["mon_rr", "mon_wrr_exact", "mon_wrr_bound", "mon_lc"],
-                 classifiers={"wrr-stale-after-removal": "cls_wrr_removed"}, nontrivial="nt_c05"),
+    suites=[dict(suite="strategy", corr=["diff"], monitors=["mon_rr", "mon_wrr_exact", "mon_wrr_bound", "mon_wrr_proved", "mon_lc"],
+                 classifiers={"wrr-flap-beyond-two-ratio": "cls_wrr_flap", "wrr-stale-after-removal": "cls_wrr_removed"}, nontrivial="nt_c05"),
             # "weights below 1 count as 1" on every path a backend can be added by (configuration and admin API)
             dict(suite="lbseq", corr=["diff_admin"], monitors=["mon_c11"], classifiers={}, nontrivial="nt_c11")],
     rule="real RoundRobin / WeightedRoundRobin / LeastConnections strategy objects: pools 1..8, weights 1..6, stretches of picks "
@@ -217,8 +217,13 @@ PROPS["C05"] = dict(
          "(LC) >= 2 distinct in-flight counts; distinct = by case hash",
     level_text="Theorems: round-robin index formula and exact counting over any n*m consecutive counter values; smooth WRR "
                "exactness from a fresh pool (each backend exactly w_i of W picks, state returns to fresh) and therefore every "
-               "sliding window of W picks; lag identity; least-connections minimality. The bound for WRR after arbitrary histories is "
-               "refuted after removals (witness) and otherwise only monitored on implementation traces, not proved (partial). "
+               "sliding window of W picks; lag identity; least-connections minimality. WRR after ANY history of additions, removals, "
+               "health changes and picks with any eligible sets: the running weights satisfy a family of subset-sum bounds "
+               "(Proofs/WrrBoundProofs.v), hence every eligible backend stays within 2(n-1)W_T/W_E of its proportional share over a "
+               "stable stretch of any length - a bound that does not grow with the number of requests (C05_wrr_bounded_after_any_history). "
+               "The constant the property names, 2 W_T/W_E, is REFUTED (C05_wrr_two_ratio_refuted: weights 8,1,1,1,1 after 88 picks "
+               "between health changes; replayed on the real strategy by the corpus, known finding wrr-flap-beyond-two-ratio); the "
+               "stated constant is still monitored on every implementation trace and every failure outside that class is reported. "
                "Tie: same operation sequences on the real strategy objects, pick by pick.",
     level_note="Trusted: Coq kernel, harness, Model/Strategy.v. atomic.AddUint64 is assumed atomic; concurrency of round robin is "
                "exercised with 2..64 goroutines (exact per-backend totals), not proved beyond the atomic-step argument.",
@@ -359,7 +364,7 @@ _WR_NOTE = ("Trusted: Coq kernel, harness (raw TCP client, scripted handler), Mo
             "one deterministic byte stream and are represented by their length; the harness checks the received bytes are that prefix. "
             "compress/gzip and http.MaxBytesReader are libraries (modelled, validated by the runs). Compressed sizes are not modelled.")
 PROPS["C14"] = dict(
-    props_file="Props/C14.v",
+    props_file="Props/C14.v", gen=["SizeLimitGen"],
     suites=[dict(suite="writer", corr=["diff"], monitors=["mon_c14_bound", "mon_c14_request", "mon_c14_transparent"],
                  classifiers={}, nontrivial="nt_c14")],
     rule="plugin chains (size_limit alone, with logging before/after, with gzip inside/outside) around a scripted handler over real "
@@ -371,13 +376,19 @@ PROPS["C14"] = dict(
     level_text="Theorems: for every call sequence of a handler the client-side body is <= max_response_body (invariant coupling the wrapper "
                "with the writer below it, proved for all reachable states); 413 when the excess is found before anything was sent and "
                "nothing forwarded afterwards; request gate: rejected exactly for a declared length above the limit, otherwise at most "
-               "max_request_body bytes readable and all of them when within the limit. PARTIAL: transparency within limits is decided by "
-               "the differential monitor on every implementation run, its simulation proof is not done.",
-    level_note=_WR_NOTE, trusted_base=["Model/RespWriter.v (hand-written; tied by the writer suite incl. the direct exchange)"],
+               "max_request_body bytes readable and all of them when within the limit; transparency: for every well-formed handler "
+               "script within the limit the client of the wrapper sees exactly what the client of the bare handler sees (simulation, "
+               "Proofs/SizeLimitProofs.v). The wrapper machine of these theorems IS the source: go2coq regenerates "
+               "limitedResponseWriter's Write / checkLimit / ensureHeaderWritten / WriteHeader / Flush on every run (Gen/SizeLimitGen.v) "
+               "and Proofs/SizeLimitRefine.v proves that, driven by any script of handler calls, they make exactly the calls of the model "
+               "(C14_model_is_source), refuse exactly the writes the model refuses, and that the type offers no ReadFrom / Unwrap / "
+               "FlushError around Write. The differential monitor decides the same on every implementation run.",
+    level_note=_WR_NOTE, trusted_base=["go2coq imperative translator in emitter mode (Gen/SizeLimitGen.v)",
+                                       "Model/RespWriter.v (hand-written: base writer machine, request gate, the middleware closure; tied by the writer suite incl. the direct exchange)"],
     assumptions=["HTTP/1.1 over loopback sockets; HTTP/2 not exercised"],
 )
 PROPS["C15"] = dict(
-    props_file="Props/C15.v",
+    props_file="Props/C15.v", gen=["GzipGen"],
     suites=[dict(suite="writer", corr=["diff"], monitors=["mon_c15_decodes", "mon_c15_only_if", "mon_c15_plain_identical"],
                  classifiers={}, nontrivial="nt_c15")],
     rule="gzip plugin (alone, after logging, inside / outside size_limit) over real connections with a raw client that does not "
@@ -387,10 +398,15 @@ PROPS["C15"] = dict(
          "request lists gzip; distinct = by case hash",
     level_text="Theorems: without a gzip token the plugin is the identity; a compressed payload is produced only at the end of an "
                "unstreamed exchange and only for a non-empty, not yet encoded body of >= min_size (declared and actual) whose content "
-               "type matches a configured prefix. PARTIAL: 'decoding what the client receives under the headers it receives yields the "
-               "backend body with the backend status' is decided on every implementation run (the harness gunzips the raw bytes), its "
-               "simulation proof is not done; the 10 MB buffering cap is only exercised in the thorough tier.",
-    level_note=_WR_NOTE, trusted_base=["Model/RespWriter.v (hand-written; tied by the writer suite incl. the direct exchange)"],
+               "type matches a configured prefix; decoding: for every configuration, Accept-Encoding verdict and well-formed handler "
+               "script the client decodes, under the Content-Encoding it receives, exactly the handler's body with the handler's status "
+               "(simulation, Proofs/GzipProofs.v). The wrapper machine of these theorems IS the source: go2coq regenerates "
+               "gzipResponseWriter's WriteHeader / commit / streamUncompressed / Write / Flush / Finish on every run (Gen/GzipGen.v) and "
+               "Proofs/GzipRefine.v proves that, driven by any script of handler calls, they make exactly the calls of the model "
+               "(C15_model_is_source; shouldGzipBody's decision is an oracle there, tied by the suite). The harness gunzips the raw "
+               "bytes on every implementation run; the 10 MB buffering cap is only exercised in the thorough tier.",
+    level_note=_WR_NOTE, trusted_base=["go2coq imperative translator in emitter mode (Gen/GzipGen.v)",
+                                       "Model/RespWriter.v (hand-written: base writer machine, shouldGzipBody, the middleware closure; tied by the writer suite incl. the direct exchange)"],
     assumptions=["gunzip(gzip(b)) = b (compress/gzip)", "HTTP/1.1 over loopback sockets"],
 )
 
